@@ -543,11 +543,12 @@ struct OptDriver : DriverBase<OptDriver<T>> {
             }
             ctx.log.kv("v", val);
             int const how = static_cast<int>(st.k[0] % 2);
+            T wtmp        = T(val); // built before the call: no user code of the harness runs between the call and the handler
             bool ok       = call(a, !was, false, [&] {
                 if (how == 0 || !was) {
-                    *v = T(val);
+                    *v = static_cast<T&&>(wtmp);
                 } else {
-                    *v.operator->() = T(val);
+                    *v.operator->() = static_cast<T&&>(wtmp);
                 }
             });
             if (ok) {
